@@ -74,7 +74,7 @@ class WS:
 
     __slots__ = ("idx", "off", "kind", "amt", "hold", "hop", "prio", "preempt", "rounds",
                  "state", "prev", "blocked", "t_req", "t_grant", "t_rel", "s_req", "s_grant",
-                 "spins", "token", "expiry", "grants", "preempted", "name", "cw_resumes")
+                 "spins", "token", "expiry", "grants", "preempted", "name", "cw_resumes", "cw_epoch", "prev_epoch")
 
     def __init__(self, idx, spec):
         self.idx = idx
@@ -92,6 +92,7 @@ class WS:
         self.grants = 0
         self.preempted = False
         self.cw_resumes = 0
+        self.cw_epoch = self.prev_epoch = 0  # one epoch per Condition.wait() call
         self.name = f"w{idx}"
 
 
@@ -243,13 +244,14 @@ class World:
         if ws is not None and ws.state == ws.prev:
             if ws.state == WAIT and ws.blocked:
                 ws.spins += 1
-            elif ws.state == CWAIT:
+            elif ws.state == CWAIT and ws.cw_epoch == ws.prev_epoch:
                 # one resumption per wait() is the notification itself (the waiter then queues on the mutex)
                 ws.cw_resumes += 1
                 if ws.cw_resumes > 1:
                     ws.spins += 1
         for w in self.ws:
             w.prev = w.state
+            w.prev_epoch = w.cw_epoch
         for clause, desc in ad.sample(self):
             self.flag(clause, ad.admit_shape(self, None) if clause == "over-admit" else self.tie_shape(),
                       f"after delivery #{self.deliveries} at {tk(t)}: {desc}")
@@ -745,6 +747,7 @@ class ConditionAd(Adapter):
                 W.note(ws, "cwait")
                 ws.state = CWAIT
                 ws.cw_resumes = 0
+                ws.cw_epoch += 1
                 W.contended = True
                 yield from cv.wait()
                 W.grant(ws)  # re-entry into the monitor: exclusion is checked again
